@@ -1,3 +1,5 @@
+//go:build g_heavy
+
 package worlds
 
 import (
